@@ -60,6 +60,12 @@ func init() {
     leaf big { type uint64; }
     leaf d { type decimal64 { fraction-digits 2; } }
     leaf w { when "v!=3"; type string; }
+    list sub {
+      key "sk";
+      leaf sk { type string; }
+      leaf v { type int32; }
+      leaf other { type string; }
+    }
     container pc {
       when "pv>1";
       leaf pv { type int32; }
